@@ -11,7 +11,9 @@ Three families, all on real code of the current tree:
            temp-file route, for n_batches in 1..N+2 and pools executing workers in reverse order: cell i of the
            result is LL(library row i converted to the kernel's internal units), library column units symbolic.
  history   the same file name is evaluated, overwritten with a library in other units, evaluated again.
-Equal-seed acceptance across paths is C02's claim (same rule, same stream positions on every path).
+ forms     equal seeds (same stream symbols) through the file-name, object and in-memory forms and several n_batches:
+           identical requests to the generator and identical accepted rows.
+ pickle    the helper a worker unpickles (CJokerHelper.__reduce__ + pickle protocol on RVData) equals the parent's.
 """
 import types
 
@@ -31,14 +33,17 @@ FUNCTIONS = [("thejoker/multiproc_helpers.py", "marginal_ln_likelihood_helper"),
 PYX_FUNCTIONS = ['CJokerHelper.__reduce__', 'CJokerHelper.batch_marginal_ln_likelihood', 'CJokerHelper.batch_get_posterior_samples', 'CJokerHelper.likelihood_worker']
 ASSUMPTIONS = [
     "junk family: the kernel's scratch state is arbitrary reals; LAPACK/Kepler/RNG stubs as in C01/C03 (outputs of a stub depend only on the inputs it is handed)",
-    "partition/history families: kernel stub ll = LL(row in internal units) (uninterpreted), file system / HDF5 / pool by contract (symx.env); real multi-process scheduling and pickling outside",
+    "partition/history families: kernel stub ll = LL(row in internal units) (uninterpreted), file system / HDF5 / pool by contract (symx.env); real multi-process scheduling outside",
+    "pickle family: pickling follows the protocol on the classes as written (user __reduce_ex__/__reduce__, else __getstate__/__dict__ + __setstate__); the pymc model inside a real JokerPrior is not pickled here (prior stub)",
+    "forms family: 'equal seeds' = the same stream symbols (generator key and positions); N <= 3, n_linear_samples <= 2",
     "bounds: kernel shapes <= 3 epochs, poly_trend <= 2, <= 1 offset; libraries N <= 4, n_batches <= N+2, pool size <= 3",
 ]
 
 
 def bounds(tier):
     return {"junk": {"n_epochs": [1, 3], "poly_trend": [1, 2], "n_offsets": [0, 1]}, "partition": {"N": [1, 4], "n_batches": "None, 1..N+2", "pool.size": [0, 3]},
-            "history": {"calls": 2}}
+            "history": {"calls": 2}, "forms": {"N": [2, 3], "entry forms": ["file name", "JokerSamples object", "in memory"], "n_batches": [1, 2, "N+1"]},
+            "pickle": {"t_ref": ["default", "explicit", "False"]}}
 
 
 def shapes(tier):
